@@ -34,7 +34,9 @@ _PROG = {}
 
 def prog():
     if "p" not in _PROG:
-        _PROG["p"] = build.load_program("A", files=["src/bls12_381/decomposition.cpp", "src/bls12_381/fr.cpp", "src/bls12_381/fq12_cyclotomic.cpp"], tag="c07")
+        _PROG["p"] = build.load_program("A", files=["src/bls12_381/decomposition.cpp", "src/bls12_381/fr.cpp", "src/bls12_381/fq12_cyclotomic.cpp",
+                                                    # explicit instantiation of the division-free variant (no code of its own)
+                                                    os.path.join(os.path.dirname(os.path.dirname(os.path.abspath(__file__))), "harness", "inst_gt.cpp")], tag="c07")
     return _PROG["p"]
 
 
@@ -301,6 +303,41 @@ def ob_gt_concrete(alias=False):
             "sample": "%d whole runs (zero, unit, maximal and seeded digit vectors): result written and equal to a^(sum c_j |x|^j)" % len(vecs)}
 
 
+def ob_gt_nodiv(alias=False):
+    """the division-free variant Fq12::exponentiate_gt_nodiv<BigInt<256>> (plain square-and-multiply over all 256 bits with cyclotomic squaring):
+    whole runs in the exponent model for boundary and seeded exponents - 0, 1, 2, r-1, r, r+1, 2^255, 2^256-1, single high bits - with the result
+    object distinct from the base or the base itself; the result must be a^(k mod r) and must have been written"""
+    import random
+    P = prog()
+    fname = P.find1(r"void " + B + r"Fq12::exponentiate_gt_nodiv<" + CORE + r"BigInt<256> ?>\(.*\)")
+    rng = random.Random(11)
+    ks = [0, 1, 2, 3, R_ORDER - 1, R_ORDER, R_ORDER + 1, 2 * R_ORDER, 1 << 255, (1 << 256) - 1, 1 << 64, (1 << 128) + 1] + [rng.getrandbits(256) for _ in range(4)] + [rng.getrandbits(20)]
+    for k in ks:
+        I = eir.Interp(P)
+        install_gt(I, [])
+        this = Obj("this", 576, "arg", 16)
+        a = this if alias else Obj("a", 576, "arg", 16, True)
+        a.cells[0] = (576, Pow(1))
+        sc = Obj("power", 32, "arg", 16, True)
+
+        def h_bit(I_, name, args, site, k=k):
+            if args[0].obj is not sc or not is_conc(args[1]):
+                raise ExecError("unsupported", "bit test outside the exponent")
+            pos = args[1] if args[1] < (1 << 31) else args[1] - (1 << 32)
+            return int(0 <= pos < 256 and (k >> pos) & 1)
+        I.add_intercept(CORE + r"BigInt<256>::bit\(int\) const", h_bit, "BigInt<256>::bit")
+        I.call_named(fname, [Ptr(this, 0), Ptr(a, 0), Ptr(sc, 0)])
+        cell = this.cells.get(0)
+        ce = {"exponent": hex(k), "alias": alias}
+        key = "gt-nodiv:%s" % ("zero" if k == 0 else "exponent")
+        if cell is None or not isinstance(cell[1], Pow):
+            raise Violation(key, "exponentiate_gt_nodiv does not write its result for the exponent %#x" % k, ce)
+        if cell[1].e % R_ORDER != k % R_ORDER:
+            raise Violation(key, "exponentiate_gt_nodiv returns a^%#x for the exponent %#x (expected a^(k mod r) = a^%#x)" % (cell[1].e % R_ORDER, k, k % R_ORDER), ce)
+    return {"queries": len(ks), "paths": len(ks), "functions": [P.demangled[fname][:110]],
+            "sample": "%d whole runs (0, 1, r-1, r, r+1, 2r, 2^255, 2^256-1, seeded): result = a^(k mod r)%s" % (len(ks), ", result object == base" if alias else "")}
+
+
 def ob_gt_bases(alias=False):
     """the prologue: t[j] = a^(|x|^j) (exponents modulo r), read at the first arrival at the loop header"""
     P = prog()
@@ -385,6 +422,8 @@ def register(chk):
     chk.add("gt-bases", ob_gt_bases)
     chk.add("gt-loop", ob_gt_loop)
     chk.add("gt-concrete-runs", ob_gt_concrete)
+    chk.add("gt-nodiv-runs", ob_gt_nodiv)
+    chk.add("gt-nodiv-runs:out=a", ob_gt_nodiv, True)
     chk.add("composition", ob_composition)
     import c10_sampling
     chk.add("powersofx-random", c10_sampling.ob_powersofx_random)
